@@ -22,7 +22,7 @@ import ast
 import os
 import re
 
-CTYPE = r'(?:unsigned\s+)?(?:double|int|long|float|char|void|object|size_t|bint|cINT|cDOUBLE|complex|cc_attributes|np\.ndarray(?:\[[^\]]*\])?)'
+CTYPE = r'(?:unsigned\s+)?(?:double|int|long|float|char|void|object|size_t|bint|cINT|cDOUBLE|complex|cc_attributes|str|bool|f_type|cftype|cfstraintype|cfNtype|unsigned|np\.ndarray(?:\[[^\]]*\])?)'
 DECL_RE = re.compile(r'^(\s*)cdef\s+(' + CTYPE + r')\s*(\*+)?\s*(\[[^\]]*\])?\s*(.*)$')
 DEF_RE = re.compile(r'^(\s*)(def|cdef|cpdef)\s+(?:inline\s+)?(?:' + CTYPE + r'\s*\**\s+)?\*?([A-Za-z_][A-Za-z_0-9]*)\s*\((.*)$')
 CAST_RE = re.compile(r'<\s*(?:unsigned\s+)?[A-Za-z_][A-Za-z_0-9.]*\s*\**\s*>')
@@ -45,6 +45,7 @@ class Module(object):
         self.tree = None
         self.funcs = {}        # name -> ast.FunctionDef
         self.lines = {}
+        self.structs = {}
 
 
 def _split_params(s):
@@ -113,6 +114,7 @@ def rewrite(path, _depth=0):
             for k, v in sub.ctypes.items():
                 mod.ctypes.setdefault(k, {}).update(v)
             mod.sigs.update(sub.sigs)
+            mod.structs.update(sub.structs)
             # included text is spliced on ONE logical position; to stay
             # line-preserving for the including file we keep it in a side list
             mod.lines.setdefault('includes', []).append((i + 1, inc, sub.text))
@@ -122,7 +124,13 @@ def rewrite(path, _depth=0):
         if re.match(r'^\s*(from\s+\S+\s+)?cimport\b', line) or re.match(r'^\s*ctypedef\b', line):
             # ctypedef struct blocks: drop the indented body too
             out.append(' ' * indent + 'pass' if indent else '')
+            depth = line.count('(') - line.count(')')
             i += 1
+            while depth > 0 and i < n:
+                # prototype continued over several lines
+                depth += src[i].count('(') - src[i].count(')')
+                out.append('')
+                i += 1
             if re.match(r'^\s*ctypedef\s+struct\b', line) or stripped.endswith(':'):
                 while i < n and (not src[i].strip() or len(src[i]) - len(src[i].lstrip()) > indent):
                     out.append('')
@@ -139,11 +147,24 @@ def rewrite(path, _depth=0):
                 out.append('')
                 i += 1
             continue
-        # cdef struct / cdef class not used in the kernels we read
+        # cdef struct NAME: block -> dropped; the field names are kept in Module.structs
+        ms = re.match(r'^\s*cdef\s+struct\s+([A-Za-z_][A-Za-z_0-9]*)\s*:', line)
+        if ms:
+            fields = []
+            out.append('')
+            i += 1
+            while i < n and (not src[i].strip() or len(src[i]) - len(src[i].lstrip()) > indent):
+                mf = re.match(r'^\s*(' + CTYPE + r')\s*(\**)\s*([A-Za-z_][A-Za-z_0-9]*)\s*$', src[i].split('#')[0].rstrip())
+                if mf:
+                    fields.append((mf.group(3), mf.group(1) + mf.group(2)))
+                out.append('')
+                i += 1
+            mod.structs[ms.group(1)] = fields
+            continue
         # function definitions
         m = DEF_RE.match(line)
         if m and (m.group(2) != 'cdef' or '(' in line) and not re.match(r'^\s*cdef\s+' + CTYPE + r'\s*\**\s*\[', line) \
-                and re.match(r'^\s*(def|cpdef)\b|^\s*cdef\s+(?:inline\s+)?' + CTYPE + r'\s*\**\s*\*?[A-Za-z_][A-Za-z_0-9]*\s*\(', line):
+                and re.match(r'^\s*(def|cpdef)\b|^\s*cdef\s+(?:inline\s+)?' + CTYPE + r'\s*\**\s*\*?[A-Za-z_][A-Za-z_0-9]*\s*\(|^\s*cdef\s+(?!struct\b|extern\b|class\b)[A-Za-z_][A-Za-z_0-9]*\s*\(', line):
             # collect the whole header up to the closing '):'
             hdr = line
             j = i
